@@ -310,19 +310,45 @@ def refDist (n nA : ℕ) : LHDist ℚ :=
   { n := n, nA := nA, mode := refMode n nA, pRU := pRU, pLU := pLU,
     pN := sumL (pRU.takeWhile fun x => decide (x > 0)) + sumL (pLU.takeWhile fun x => decide (x > 0)) - 1 }
 
+/-- the shape of what `apply` returns: a mode `M` and two step functions, identified with `refMode` / `stepR` / `stepL` up to
+ring identities (so that an algebraically equivalent rewrite of the Scala formulas does not break the proof) -/
+theorem apply3_shape (n nA : ℤ) (hg : (decide (nA ≥ 0) && decide (nA ≤ n)) = true) :
+    ∃ (M : ℤ) (sR sL : ℤ → ℚ → ℤ × ℚ),
+      Exact.LeveneHaldane_apply_3 0 n nA = Out.val
+        (LHDist.mk n nA M (HailVerif.StatsLib.unfold sR (lhFuel nA) M 1) (HailVerif.StatsLib.unfold sL (lhFuel nA) M 1)
+          (sumL (List.takeWhile (fun x1 => decide (x1 > 0 * (1 / 10000000000000000))) (HailVerif.StatsLib.unfold sR (lhFuel nA) M 1))
+            + sumL (List.takeWhile (fun x1 => decide (x1 > 0 * (1 / 10000000000000000))) (HailVerif.StatsLib.unfold sL (lhFuel nA) M 1)) - 1)) ∧
+      M = refMode n nA ∧ (∀ i p, sR i p = stepR n nA i p) ∧ (∀ i p, sL i p = stepL n nA i p) := by
+  refine ⟨?M, ?sR, ?sL, ?h1, ?h2, ?h3, ?h4⟩
+  case h1 =>
+    unfold Exact.LeveneHaldane_apply_3
+    simp only [hg]
+    rfl
+  case h2 =>
+    first
+      | rfl
+      | (unfold refMode; simp only []; congr 2; push_cast; ring_nf)
+  case h3 =>
+    intro i p
+    first
+      | rfl
+      | (unfold stepR; refine Prod.ext ?_ ?_ <;> (simp only []; try push_cast; try ring))
+  case h4 =>
+    intro i p
+    first
+      | rfl
+      | (unfold stepL; refine Prod.ext ?_ ?_ <;> (simp only []; try push_cast; try ring))
+
 theorem apply_val (n nA : ℕ) (h : nA ≤ n) : Exact.LeveneHaldane_apply_3 0 (n : ℤ) (nA : ℤ) = Out.val (refDist n nA) := by
   have hR := unfold_eq_map (stepR n nA) (fun j : ℕ => refMode n nA + 2 * (j : ℤ)) (gR n nA) (stepR_spec n nA h) (lhFuel nA)
   have hL := unfold_eq_map (stepL n nA) (fun j : ℕ => refMode n nA - 2 * (j : ℤ)) (gL n nA) (stepL_spec n nA h) (lhFuel nA)
   simp only [Nat.cast_zero, mul_zero, add_zero, sub_zero, gR_zero n nA h, gL_zero n nA h] at hR hL
-  unfold Exact.LeveneHaldane_apply_3
   have hg : (decide ((nA : ℤ) ≥ 0) && decide ((nA : ℤ) ≤ (n : ℤ))) = true := by simp; omega
-  simp only [hg]
-  change (if (!true) = true then Out.fatal else Out.val
-    (LHDist.mk (n : ℤ) (nA : ℤ) (refMode n nA) (HailVerif.StatsLib.unfold (stepR n nA) (lhFuel nA) (refMode n nA) 1)
-      (HailVerif.StatsLib.unfold (stepL n nA) (lhFuel nA) (refMode n nA) 1)
-      (sumL (List.takeWhile (fun x1 => decide (x1 > 0 * (1 / 10000000000000000))) (HailVerif.StatsLib.unfold (stepR n nA) (lhFuel nA) (refMode n nA) 1))
-          + sumL (List.takeWhile (fun x1 => decide (x1 > 0 * (1 / 10000000000000000))) (HailVerif.StatsLib.unfold (stepL n nA) (lhFuel nA) (refMode n nA) 1)) - 1))) = _
-  rw [hR, hL]
+  obtain ⟨M, sR, sL, h1, hM, hsR, hsL⟩ := apply3_shape n nA hg
+  have eR : sR = stepR n nA := funext fun i => funext fun p => hsR i p
+  have eL : sL = stepL n nA := funext fun i => funext fun p => hsL i p
+  subst hM eR eL
+  rw [h1, hR, hL]
   simp [refDist]
 
 theorem W_nonneg (n nA : ℕ) (k : ℤ) : 0 ≤ W n nA k := lhWeight_nonneg _ _ _
